@@ -31,6 +31,7 @@ def submultiset(consumed, written):
 
 class C03(core.Prop):
     ID = 'C03'
+    CROSSHAIR_KERNELS = ['compatible_kernel.py']
     FUNCTIONS = ['compatible', 'match_bonding_descriptors', 'edges_from_bonding_descrpt', 'resolve', 'resolve_disconnected_molecule',
                  'strip_bonding_descriptors', 'merge_graphs']
     STUBS = ['compatible(): summarised per argument pair by nested exploration of its own rewritten source (memoised)',
